@@ -50,6 +50,14 @@ CHECKS = {
          "Every history up to depth 6 (8 thorough) over events of 3 or 5 ids, clock steps, FlushAll and Close, Broker set/nil: after each successful Process at virtual time T no group older than the expiration remains gated and expired groups reached the Sender oldest first; after a successful FlushAll/Close nothing remains and each held group was emitted once. Found and fixed: only the first of several groups was emitted (known-findings file).",
          "Virtual clock through NowFunc makes every expiry certain; the probe flushes each id on a replayed copy with the clock rewound so it has no sweep side effects.",
          "DESIGN.md §3 C17"),
+ "C08": ("bounded-exhaustive enumeration of operation histories on the real FileSink over a real directory with a virtual clock, crash-point enumeration at every file-system call, plus stateless model checking of concurrent writers",
+         "All 671k histories of length 4 (5 thorough) over writes at the MaxBytes boundary, Reopen, external rotation and clock steps in 128 configurations run on the real FileSink; at every file-system call the sink makes - exactly the states a SIGKILL can leave - and after every step the files read oldest to newest must concatenate to the acknowledged events, with only retention removing files and what remains being a suffix. 21 concurrent writer/Reopen scenarios are explored over all schedules within the bound.",
+         "Kill model: every effect is one system call; a <=200 byte append is not torn. File identities are tracked through the sink's own rename/remove calls (instrumenter wraps os.* in the library sources).",
+         "DESIGN.md §3 C08, §2.6"),
+ "C15": ("bounded-exhaustive enumeration of operation histories on the real FileSink with a virtual clock against a reference model of the rotation rule, naming, modes and retention",
+         "The same 671k histories x 128 configurations as C08; after every step the sink's behaviour is compared with a reference model driven by the same virtual clock: rotation iff bytes-since-open >= MaxBytes or age > MaxDuration, exported counters, strictly increasing timestamps inside the call's clock window, plain active name under TimestampOnlyOnRotate, file and directory modes, at most MaxFiles newest rotated files right after a rotation, nothing else ever removed.",
+         "The virtual clock (instrumented time.Now/Since) makes every time condition certain.",
+         "DESIGN.md §3 C15"),
 }
 
 NOT_YET = "check not built yet in this session (work in progress; see DESIGN.md for the plan)"
